@@ -55,7 +55,8 @@ static int drv_stream_open(DrvStream *d, const char *kind, const char *hx)
 	if (!strcmp(kind, "cbskip")) { d->is_cb = 1; DRV_ALLOC_BEGIN(); d->stream = lha_input_stream_new(&ds_type_skip, d); }
 	else if (!strcmp(kind, "cbnoskip")) { d->is_cb = 1; DRV_ALLOC_BEGIN(); d->stream = lha_input_stream_new(&ds_type_noskip, d); }
 	else if (!strcmp(kind, "file")) {
-		snprintf(d->path, sizeof(d->path), "/dev/shm/drvhdr_%d.bin", (int) getpid());
+		static unsigned serial;           /* two streams of one process must not share the file */
+		snprintf(d->path, sizeof(d->path), "/dev/shm/drvhdr_%d_%u.bin", (int) getpid(), ++serial);
 		d->fh = fopen(d->path, "wb"); if (!d->fh) return 0;
 		fwrite(d->data, 1, d->len, d->fh); fclose(d->fh);
 		d->fh = fopen(d->path, "rb"); if (!d->fh) return 0;
@@ -78,6 +79,16 @@ static int drv_stream_open(DrvStream *d, const char *kind, const char *hx)
 		d->stream = lha_input_stream_from_FILE(d->fh);
 	} else return 0;
 	return d->stream != NULL;
+}
+
+/* without the reads=/skips= report */
+static void drv_stream_close_quiet(DrvStream *d)
+{
+	if (d->stream) lha_input_stream_free(d->stream);
+	if (d->fh) fclose(d->fh);
+	if (d->child > 0) { int st; waitpid(d->child, &st, 0); }
+	if (d->path[0]) unlink(d->path);
+	free(d->data);
 }
 
 static void drv_stream_close(DrvStream *d)
